@@ -69,6 +69,10 @@ BOOKKEEPING = re.compile(r"(doBreak|cutIf[0-9]+|l[0-9]+|x[0-9]+|_)\Z")
 VARIABLE_RE = re.compile(r"[A-Z_][A-Za-z0-9_]*\Z")
 PLAIN_ATOM = re.compile(r"[a-z][A-Za-z0-9_]*\Z")
 
+# engine methods that must never run as goals, however the goal is reached
+META_TARGETS = ["clear", "atom", "variable", "load_script_from_string", "register_function", "assert_fact", "query", "makelist",
+                "evaluate_bounded", "_set_builtin_predicates", "__init__"]
+
 # ------------------------------------------------------------------------------ hostile corpus
 HOSTILE_NAMES = [
     "it's", "'", "''", '"', '"""', "'''", "a\"b'c", "'\"'\"", "x'", "'x",
@@ -601,6 +605,22 @@ def dynamic_check(code, text, queries, notes):
                     problems.append("hostile query %r/%d (%s args) has %d answers" % (name, arity, mode, n))
                 if arity == 0:
                     break
+    # the same names reached through the meta-call builtins (call/N, once/1, findall/3 run their goal through query as well)
+    ctx_before = set(yp.eval_context)
+    for name in META_TARGETS:
+        for goal in (yp.atom(name), yp.functor(name, [yp.atom("x")]), yp.functor(name, [yp.variable(), yp.atom("x")])):
+            for what, margs in (("call", [goal]), ("once", [goal]), ("findall", [yp.variable(), goal, yp.variable()]),
+                                ("call", [yp.atom(name), yp.atom("x")])):
+                n, err, ev = _run_query(yp, what, margs)
+                if err and "not callable" not in err:
+                    problems.append("hostile goal %s(%s ...) raised %s" % (what, name, err))
+                if ev:
+                    problems.append("hostile goal %s(%s ...) caused audit events %r" % (what, name, ev[:6]))
+                if n and what != "findall":
+                    problems.append("hostile goal %s(%s ...) has %d answers" % (what, name, n))
+    if set(yp.eval_context) != ctx_before:
+        problems.append("meta-called API names changed the evaluation context: lost %r, new %r"
+                        % (sorted(ctx_before - set(yp.eval_context))[:5], sorted(set(yp.eval_context) - ctx_before)[:5]))
     if invoked:
         problems.append("engine API functions were invoked as predicates: %r" % sorted(set(invoked)))
     return problems
